@@ -4,7 +4,7 @@ package main
 // Direction A: TLC checks the coded reading of keys against the declarative one on every listing of a bounded
 // family (and refutes the code before 8fe0c6c: D14).  Direction B: every listing TLC enumerates is served by a
 // fake git to the real refopts.RefGroupBuilder (driven from inside a scratch copy of the repository, because the
-// package is internal) and the groups, names, rows, refusal and the classification of four probe references
+// package is internal) and the groups, names, rows, refusal and the classification of six probe references
 // are compared with the declarative outcome TLC printed.
 
 import (
@@ -74,7 +74,7 @@ type keysExport struct {
 
 // rendering of the model's tokens
 var keysWord = map[string]string{"G": "refgroup", "x": "x", "f": "foo", "a": "a", ".": ".", "b": "branches", "o": "other",
-	"I": "include", "E": "exclude", "N": "name", "u": "unknown"}
+	"I": "include", "E": "exclude", "J": "includeregexp", "F": "excluderegexp", "N": "name", "u": "unknown"}
 
 func keysStr(toks []string) string {
 	var b strings.Builder
@@ -89,13 +89,17 @@ func keysStr(toks []string) string {
 }
 
 func keysValue(r keysRec) string {
-	if keysStr(r.Var) == "name" {
-		return fmt.Sprintf("Name %d", r.Value)
-	}
+	v := "refs/v1"
 	if r.Value == 2 {
-		return "refs/heads/v2" // inside the built-in group's references
+		v = "refs/heads/v2" // inside the built-in group's references
 	}
-	return "refs/v1"
+	switch keysStr(r.Var) {
+	case "name":
+		return fmt.Sprintf("Name %d", r.Value)
+	case "includeregexp", "excluderegexp":
+		return v + "/[0-9]+"
+	}
+	return v
 }
 
 func keysListing(x keysExport) []byte {
@@ -116,7 +120,7 @@ func keysListing(x keysExport) []byte {
 }
 
 // the probes of ConfigKeysMC!ProbeSeq, in its order
-var keysProbes = []string{"refs/zz/x", "refs/v1/x", "refs/heads/v2/x", "refs/heads/m"}
+var keysProbes = []string{"refs/zz/x", "refs/v1/x", "refs/v1/7", "refs/heads/v2/x", "refs/heads/v2/42", "refs/heads/m"}
 
 type refdrvAnswer struct {
 	Error  string      `json:"error"`
@@ -334,7 +338,7 @@ func checkConfigKeys(c *Ctx) {
 	c.Ev.TracesValid += int64(len(exps))
 	c.mu.Unlock()
 	c.Sample(map[string]interface{}{"kind": "listing served to the real RefGroupBuilder", "bytes": string(listings[len(listings)/3])})
-	c.Note("ConfigKeys: %d listings (subsections up to %d characters over {a, .}, incl. empty components) through the real RefGroupBuilder: groups, names, rows, refusals (%d) and 4 probe classifications equal the declarative outcome", len(exps), maxSub, nref)
+	c.Note("ConfigKeys: %d listings (subsections up to %d characters over {a, .}, incl. empty components) through the real RefGroupBuilder: groups, names, rows, refusals (%d) and 6 probe classifications equal the declarative outcome", len(exps), maxSub, nref)
 }
 
 func replayConfigKeys(c *Ctx, raw json.RawMessage) bool {
